@@ -738,6 +738,18 @@ impl TypeChecker {
                             }
                         }
 
+                        // The variant of a value is stored in one byte.
+                        if variants.len() > 256 {
+                            return Err(self.error_simple(
+                                format!(
+                                    "enum `{}` has too many variants",
+                                    ident.node
+                                ),
+                                "an enum can have at most 256 variants",
+                                ident.id,
+                            ));
+                        }
+
                         let mut evaluated_variants = Vec::new();
 
                         for v in &**variants {
